@@ -2,6 +2,7 @@
 from contracts import c07_knockout as C
 from contracts import c08_visitors as V
 from contracts import c02_remove_genes as RG
+from contracts import c08_text as T
 from props._generic import run_property, replay_with_driver
 
 LEVEL = "other"
@@ -55,8 +56,33 @@ def run(rep):
         "the body at the call site; the reactions handed to Model.remove_reactions are exactly those whose rule is False with "
         "the removed identifiers absent (remove_reactions set); every other rule is untouched. Assumed there: the visit of the "
         "root GPR object (NodeTransformer.generic_visit on a node whose body is a node) and that rule trees of different GPR "
-        "objects are disjoint"),
-        more=[(VISITOR_KEYS, V.HOOKS), (["GPR.from_symbolic._sympy_to_ast"], V.HOOKS_S2A), (RG.KEYS, RG.HOOKS)], lemmas=V.all_lemmas,
+        "objects are disjoint. "
+        "SKELETON of the text half (contracts/c08_text.py; every string operation - str.strip / replace / `in` / len, re.Pattern.sub for "
+        "keyword_re, number_start_re, \\bAND\\b, \\bOR\\b - is an uninterpreted function named after the operation, only `len(s) == 0 iff "
+        "s == ''` is assumed about them): GPR.from_string is proved to raise TypeError with nothing changed for a non-string; to return the "
+        "rule without body (evaluates True, no genes, no warning) for an empty / blank text; to hand to ast.parse exactly text0 = "
+        "replace(number_start_re.sub(ESC, keyword_re.sub(ESC, R8(strip(s)))), '()', '') where R8 is the fold of the eight conditional "
+        "replacements of the module constant `replacements` (loop invariant over the real loop); when the parser rejects text0 and it "
+        "contains AND / OR, to retry once with both lowered (two logger warnings observed; the engine drops `warn(...)` statements, so the "
+        "SyntaxWarning next to them is not observed); when the parser rejects the retried text, to log the two `Malformed` warnings and "
+        "return the rule without body; otherwise to return a NEW well-formed GPR object with a body whose Boolean value (for every set of "
+        "absent genes), names(tree) and name cache are esc_sem / esc_names of the text that was parsed (precondition: a text CPython "
+        "accepts is an and/or/&/| expression over identifiers) - relative to the ASSUMED contracts of ast.parse (SyntaxError or the parse "
+        "tree of the text), GPRCleaner.visit on the root (un-escapes the identifiers; its visit_BinOp is the proved piece) and deepcopy of "
+        "the body.  GPR.__init__ is proved for its shapes: no argument (no body, empty cache), an Expression holding a parser output or a "
+        "clean tree (cleaner applied, cache = the cleaner's gene_set, body = the copy, self.eval() reached with a well-formed rule: value "
+        "and names as above / unchanged), any other non-Module node: TypeError (Module / GPR arguments and the str branch are outside the "
+        "cases).  GPR.from_symbolic: TypeError for a non-sympy argument, Symbol('') gives the rule without body, otherwise the rule wraps "
+        "the tree of the proved converter _sympy_to_ast in an Expression and has the Boolean value of the sympy expression "
+        "(precondition: fragment Symbol / Or / And, identifiers without escape tokens).  GPR.to_string is a proved pass-through of the "
+        "ASSUMED string-level _ast2str.  Reaction.gene_reaction_rule setter (body under @resettable): self._gpr becomes the rule "
+        "from_string returns for the text (all its cases) and update_genes_from_gpr() is called exactly once afterwards (recorded; its "
+        "effect is the proved C02 contract); a non-string rule raises TypeError with _gpr unchanged and no call; Reaction.gpr setter and "
+        "the gene_reaction_rule getter likewise.  Lemmas: induction steps of `an expression tree ignores the body field`; with the "
+        "STRING-LEVEL assumption `escaping is faithful` (T2, tested by the bounded driver only) the rule from_string returns has the "
+        "value and the genes of the ORIGINAL text."),
+        more=[(VISITOR_KEYS, V.HOOKS), (["GPR.from_symbolic._sympy_to_ast"], V.HOOKS_S2A), (RG.KEYS, RG.HOOKS), (T.KEYS_RX, T.HOOKS_RX),
+              (T.KEYS_FSYM, T.HOOKS_FSYM)], lemmas=T.all_lemmas,
         trusted=["ast.parse / re / sympy (assumed)", "rule trees are finite and acyclic",
                  "ast.NodeVisitor.visit dispatches on the node's class name to visit_<Class> or generic_visit (assumed contracts "
                  "_GeneRemover.visit / GPRWalker.visit whose cases are the proved method contracts)",
@@ -76,7 +102,19 @@ def run(rep):
                  "remove_genes: _GeneRemover.visit on the root GPR object (body replaced by the visit of the body, attribute deleted for "
                  "None), rule trees of different GPR objects disjoint; the remover constructor; gene_reaction_rule empty iff no body",
                  "sympy: Symbol(k) is true iff k is not absent, Or(*es) / And(*es) mean some / all of es (whatever simplification they "
-                 "apply), a.equals(b) is True only for logically equivalent a, b, `==` of two Symbols is structural (assumed)"])
+                 "apply), a.equals(b) is True only for logically equivalent a, b, `==` of two Symbols is structural (assumed)",
+                 "text skeleton: the string functions str.strip, str.replace, str.__contains__, str.__len__ (only len(s)==0 iff s==''), "
+                 "re.Pattern.sub of keyword_re / number_start_re / \\bAND\\b / \\bOR\\b are uninterpreted; ast.parse raises SyntaxError or "
+                 "returns the Expression whose body is the parse tree of the text (assumed contract ast.parse, functional allocation); "
+                 "GPRCleaner().visit(root) turns a parse tree of an and/or/&/| text into a well-formed tree with the value and names of the "
+                 "text with identifiers un-escaped, leaves a clean tree without escape tokens unchanged, adds the names to gene_set "
+                 "(assumed contract GPRCleaner.visit: dispatch + generic_visit + string-level visit_Name); GPRCleaner() / ast.Module() / "
+                 "ast.Expression(body) allocation; copy.deepcopy of an expression tree keeps value and names; the closure-free "
+                 "transcription of the proved _sympy_to_ast contract at its call site (+ its tree is no parser output); GPR._ast2str "
+                 "(string level) is the uninterpreted function gpr_ast2str; new GPR objects are non-null with class tag GPR",
+                 "string-level assumption T2 (lemma from_string/value-and-genes-of-the-original-text only): the escaping pipeline is "
+                 "faithful - for a text of the grammar the escaped text (or the text with AND / OR lowered) is accepted by CPython and "
+                 "has the value and identifiers of the original"])
 
 
 def replay(payload):
